@@ -16,7 +16,8 @@
                 (C18_earley_parser_sound; no fuel condition).  parser_complete and
                 "SyntaxError <-> not in the language": under fuel_ok (C10's computable chart bound)
                 and no_oof (the model's out-of-fuel outcome of the tree ENUMERATION excluded — the
-                one thing C10_parse_member_outcomes_partial leaves open).
+                one thing C10_parse_member_outcomes_partial leaves open; extension 3 derives it
+                from acyclicb, see (2) below).
      evaluator  isla_eval = EvalAtoms.m_evaluate (C03 model, concrete atoms), isla_sat = Semantics.sat.
                 eval_definite/eval_correct are derived POINTWISE (C18_isla_eval_ok) for every closed
                 valid tree with distinct ids that passes the boolean guard isla_guard (C03's fragment:
@@ -29,16 +30,44 @@
    evaluator models, check(s) = true <-> the first Earley tree of s satisfies phi in the
    specification semantics; verdict table of parse().  Side conditions: gram_ok, guards, guard_on s
    (and fuel_ok, no_oof for the SyntaxError row).
-   STILL PREMISES: subsolve_sound (C01; `abstractions` is not modelled), for repair/mutate the
-   evaluator premise in its global form (isla_guard depends on the tree, repair/mutate evaluate
-   trees that come from the sub-solver), mutant_is_run, no_oof.
-   sat_respects_eqv for Semantics.sat: REFUTED in three precisely delimited classes
-   (C18_sat_respects_eqv_*_refuted: match expressions whose prefix tree spells out an epsilon
-   expansion, `count`/quantifier over the empty label "", formulas containing tree literals (ids));
-   the positive statement for the remaining formulas is NOT proved (C18_check_tree_str_earley keeps
-   sat_respects_eqv as a premise). *)
-From ISLA Require Import Earley EarleyPrune Semantics Eval EvalAtoms EvalFacts Mutate.
+   STILL PREMISES (after proof extension 3, see below): subsolve_sound (C01; `abstractions` is not
+   modelled), for repair/mutate the evaluator premise in its global form (isla_guard depends on the
+   tree, repair/mutate evaluate trees that come from the sub-solver), mutant_is_run (or the filter
+   of extension 3).
+
+   PROOF EXTENSION 3 (Solver/EraseSem.v, ApiAcyclicMore.v, ApiEqvMore.v):
+     (1) sat_respects_eqv for Semantics.sat.  The full statement is FALSE (five witnesses:
+         C18_sat_respects_eqv_{mexpr,count_eps,ids}_refuted and C18_sat_respects_eqv_more_refuted);
+         the POSITIVE half is now PROVED for every constraint inside the boolean guard eqv_guard:
+           no tree literal (InTree / PTree), no quantifier over the label "" and no count with the
+           needle "", match expressions: no node of a prefix tree has the label "" and bound paths
+           end in leaves of the prefix tree
+         -- every conjunct is necessary (each has a refutation witness).  C18_sat_erase: t |= phi <-> erase t |= phi (same assignment; the positions of
+         erase t are those of t minus the fuzzer's epsilon children, which carry the label "");
+         before/after/inside/same/different/direct_child do not look at the tree; consecutive
+         (epsilon leaves ARE leaves, but an erased node becomes a leaf at the same place in document
+         order: C18_consecutive_eps_invariant), nth, level (any label), count (needle <> ""), the
+         spec's match() and numeric quantifiers are invariant; SMT atoms see only strings.
+         C18_sat_respects_eqv_partial (any atom family that sees only strings:
+         C18_sat_respects_eqv_generic_partial).
+     (2) no_oof is a THEOREM for grammars without cyclic unit/nullable derivations
+         (acyclicb (cgram g <start>), C10's guard) once fuel_ok holds: C18_no_oof_acyclic; the
+         completeness / SyntaxError / verdict-table theorems are restated without no_oof
+         (C18_*_acyclic).
+         check(tree) = check(str(tree)): C18_check_tree_str_earley_partial (abstract evaluator;
+         premises sat_respects_eqv AND no_oof gone; partial = eqv_guard + acyclicb) and
+         C18_check_tree_str_earley_isla (parser AND evaluator concrete, no component premise:
+         side conditions gram_ok, guards, acyclicb, fuel_ok, eqv_guard, unambiguous, isla_guard on
+         the tree, guard_on on its string).  Non-vacuity C18_check_tree_str_nonvacuous: ex_g is
+         unambiguous and acyclic; the fuzzer-shaped epsilon tree, whose parse has the OTHER shape.
+     (3) mutant premise: C18_checked_mutant_valid / C18_mutate_str_valid_earley_checked -- a mutant
+         stream filtered by C12's acceptance procedure accept_mutate needs NO premise;
+         C18_checked_mutant_id: on runs of C12's transition system (mutant_is_run) the filter is the
+         identity.  A functional model of Mutator.mutate (random choices as an oracle) proved to
+         stay inside mutate_star is still missing. *)
+From ISLA Require Import Earley EarleyPrune EarleyAcyclic Semantics Eval EvalAtoms EvalFacts Mutate.
 From ISLA Require Import FreshIds ApiInst ApiCompose ApiComposeEval ApiComposeEx.
+From ISLA Require Import EraseSem ApiAcyclicMore ApiEqvMore.
 (* Api / ApiFacts last: their names (eval_correct, TT, FF, START, ex_g, mutate_valid) win *)
 From ISLA Require Import Api ApiFacts GrammarFacts.
 
@@ -398,7 +427,8 @@ Print Assumptions C18_composed_nonvacuous.
      (2) `count` with the empty needle (likewise: a quantifier over the label ""),
      (3) formulas containing a tree literal (already instantiated): ids matter.
    The positive statement (formulas without tree literals, without epsilon expansions in prefix
-   trees, needles and quantifier types <> "") is NOT proved. ---- *)
+   trees, needles and quantifier types <> "") is proved in extension 3 below
+   (C18_sat_respects_eqv_partial). ---- *)
 Theorem C18_sat_respects_eqv_mexpr_refuted :
   good ex_g ex_eps_parser /\ good ex_g ex_eps_fuzzer /\ eqv ex_eps_parser ex_eps_fuzzer /\
   ~ isla_sat cx_cst rx_phi ex_eps_parser /\ isla_sat cx_cst rx_phi ex_eps_fuzzer /\
@@ -423,3 +453,187 @@ Example C18_mutant_is_run_nonvacuous :
   mutant_is_run ex_g (fun inp _ => Ok inp) /\ mutant_valid ex_g (fun inp _ => Ok inp).
 Proof. exact mutant_is_run_ex. Qed.
 Print Assumptions C18_mutant_is_run_nonvacuous.
+
+(* ====================================================================================== *)
+(* Proof extension 3                                                                        *)
+(* ====================================================================================== *)
+
+(* ---- (1) sat_respects_eqv, positive half.
+   FULL STATEMENT (refuted above and in C18_sat_respects_eqv_more_refuted):
+     forall g cst phi, sat_respects_eqv g (isla_sat cst phi).
+   PARTIAL: under the boolean guard eqv_guard phi (definition: Solver/EraseSem.v). ---- *)
+
+(* the specification semantics does not distinguish t from erase t (ids 0, epsilon children gone) *)
+Theorem C18_sat_erase : forall g cst phi t,
+  wf_tree g t -> lbl t <> [] -> eqv_guard phi = true ->
+  (isla_sat cst phi t <-> isla_sat cst phi (erase t)).
+Proof. exact isla_sat_erase. Qed.
+Print Assumptions C18_sat_erase.
+
+Theorem C18_sat_respects_eqv_partial : forall g cst phi,
+  eqv_guard phi = true -> sat_respects_eqv g (isla_sat cst phi).
+Proof. exact isla_sat_respects_eqv. Qed.
+Print Assumptions C18_sat_respects_eqv_partial.
+
+(* the same for ANY family of SMT atoms whose meaning depends only on the strings of the trees *)
+Theorem C18_sat_respects_eqv_generic_partial :
+  forall (A : Type) (adenote : A -> (var -> option tree) -> Prop),
+  (forall a e e', (forall v, yrel (e v) (e' v)) -> (adenote a e <-> adenote a e')) ->
+  forall g cst f, eqv_guard f = true -> sat_respects_eqv g (fun t => sat adenote t cst f).
+Proof. exact sat_respects_eqv_guarded. Qed.
+Print Assumptions C18_sat_respects_eqv_generic_partial.
+
+(* `consecutive`: epsilon children ARE leaves, yet the spec predicate is invariant -- the erased
+   node is a leaf of erase t at the same place in document order (q a position of t with a
+   non-empty label) *)
+Theorem C18_consecutive_eps_invariant : forall t p q,
+  (exists s, subtree t q = Some s /\ lbl s <> []) ->
+  (consecutive_spec t p q <-> consecutive_spec (erase t) p q).
+Proof. exact consecutive_erase. Qed.
+Print Assumptions C18_consecutive_eps_invariant.
+
+(* the guard admits the running example and a formula with consecutive, nth, level, before, count,
+   a match expression and a numeric quantifier; it rejects the witnesses of the failing classes *)
+Example C18_eqv_guard_examples :
+  eqv_guard cx_phi = true /\ eqv_guard rx_phi = false /\ eqv_guard rc_phi = false /\ eqv_guard ri_phi = false.
+Proof. exact eqv_guard_examples. Qed.
+Print Assumptions C18_eqv_guard_examples.
+
+Example C18_eqv_guard_rich :
+  eqv_guard gx_phi = true /\
+  (isla_sat cx_cst gx_phi ex_eps_parser <-> isla_sat cx_cst gx_phi ex_eps_fuzzer).
+Proof. exact eqv_guard_rich. Qed.
+Print Assumptions C18_eqv_guard_rich.
+
+(* the two remaining conjuncts of the guard are necessary as well: a variable bound at an INNER node
+   of a prefix tree (rb_phi), a quantifier over the label "" (rq_phi) *)
+Theorem C18_sat_respects_eqv_more_refuted :
+  eqv_guard rb_phi = false /\ eqv_guard rq_phi = false /\
+  ~ isla_sat cx_cst rb_phi ex_eps_parser /\ isla_sat cx_cst rb_phi ex_eps_fuzzer /\
+  ~ sat_respects_eqv ex_g (isla_sat cx_cst rb_phi) /\
+  ~ isla_sat cx_cst rq_phi ex_eps_parser /\ isla_sat cx_cst rq_phi ex_eps_fuzzer /\
+  ~ sat_respects_eqv ex_g (isla_sat cx_cst rq_phi).
+Proof. exact sat_respects_eqv_more_refuted. Qed.
+Print Assumptions C18_sat_respects_eqv_more_refuted.
+
+(* ---- (2) no_oof from C10's termination theorem ---- *)
+Theorem C18_no_oof_acyclic : forall g fxA fxB fuelf s,
+  gram_ok g -> guards fxA fxB g -> acyclicb (cgram g Api.START) = true -> fuel_ok fuelf g s ->
+  no_oof fxA fxB fuelf g s.
+Proof. exact no_oof_acyclic. Qed.
+Print Assumptions C18_no_oof_acyclic.
+
+Theorem C18_earley_parser_complete_acyclic : forall g fxA fxB fuelf,
+  gram_ok g -> guards fxA fxB g -> acyclicb (cgram g Api.START) = true ->
+  (forall s, fuel_ok fuelf g s) -> parser_complete g (earley_first fxA fxB fuelf g).
+Proof. exact earley_parser_complete_acyclic. Qed.
+Print Assumptions C18_earley_parser_complete_acyclic.
+
+Theorem C18_earley_outcomes_acyclic : forall g fxA fxB fuelf,
+  gram_ok g -> guards fxA fxB g -> acyclicb (cgram g Api.START) = true -> forall s, fuel_ok fuelf g s ->
+  (L g Api.START s /\ exists t0 ts, earley_parse fxA fxB (fuelf s) g Api.START Api.START s 1 = Ok (t0 :: ts)) \/
+  (~ L g Api.START s /\ earley_parse fxA fxB (fuelf s) g Api.START Api.START s 1 = Raise SyntaxErr).
+Proof. exact earley_outcomes_acyclic. Qed.
+Print Assumptions C18_earley_outcomes_acyclic.
+
+Theorem C18_earley_syntaxerr_iff_acyclic : forall g fxA fxB fuelf,
+  gram_ok g -> guards fxA fxB g -> acyclicb (cgram g Api.START) = true -> forall s, fuel_ok fuelf g s ->
+  (solver_parse fxA fxB (fuelf s) g Api.START s = Raise SyntaxErr <-> ~ L g Api.START s).
+Proof. exact earley_syntaxerr_iff_acyclic. Qed.
+Print Assumptions C18_earley_syntaxerr_iff_acyclic.
+
+Theorem C18_parse_api_spec_earley_acyclic : forall g fxA fxB fuelf,
+  gram_ok g -> guards fxA fxB g -> acyclicb (cgram g Api.START) = true -> forall sat eval s,
+  fuel_ok fuelf g s -> eval_definite g eval -> eval_correct g sat eval ->
+  (L g Api.START s /\ exists t, earley_first fxA fxB fuelf g Api.START s = Some t /\ good g t /\ yield t = s /\
+     NoDup (ids t) /\
+     ((sat t /\ parse_api (earley_first fxA fxB fuelf g) eval s Api.START false = Ok t /\
+       check_str (earley_first fxA fxB fuelf g) eval s = Ok true) \/
+      (~ sat t /\ parse_api (earley_first fxA fxB fuelf g) eval s Api.START false = Raise SemanticErr /\
+       check_str (earley_first fxA fxB fuelf g) eval s = Ok false))) \/
+  (~ L g Api.START s /\ earley_first fxA fxB fuelf g Api.START s = None /\
+     parse_api (earley_first fxA fxB fuelf g) eval s Api.START false = Raise SyntaxErr /\
+     check_str (earley_first fxA fxB fuelf g) eval s = Ok false).
+Proof. exact parse_api_spec_earley_acyclic. Qed.
+Print Assumptions C18_parse_api_spec_earley_acyclic.
+
+(* verdict table of parse()/check(str), parser and evaluator concrete, no no_oof *)
+Theorem C18_parse_api_spec_earley_isla_acyclic : forall g fxA fxB fuelf,
+  gram_ok g -> guards fxA fxB g -> acyclicb (cgram g Api.START) = true -> forall cst phi s,
+  fuel_ok fuelf g s -> guard_on g fxA fxB fuelf cst phi s ->
+  (L g Api.START s /\ exists t, earley_first fxA fxB fuelf g Api.START s = Some t /\ good g t /\ yield t = s /\
+     ((isla_sat cst phi t /\
+       parse_api (earley_first fxA fxB fuelf g) (isla_eval cst phi) s Api.START false = Ok t /\
+       check_str (earley_first fxA fxB fuelf g) (isla_eval cst phi) s = Ok true) \/
+      (~ isla_sat cst phi t /\
+       parse_api (earley_first fxA fxB fuelf g) (isla_eval cst phi) s Api.START false = Raise SemanticErr /\
+       check_str (earley_first fxA fxB fuelf g) (isla_eval cst phi) s = Ok false))) \/
+  (~ L g Api.START s /\ earley_first fxA fxB fuelf g Api.START s = None /\
+     parse_api (earley_first fxA fxB fuelf g) (isla_eval cst phi) s Api.START false = Raise SyntaxErr /\
+     check_str (earley_first fxA fxB fuelf g) (isla_eval cst phi) s = Ok false).
+Proof. exact parse_api_spec_composed_acyclic. Qed.
+Print Assumptions C18_parse_api_spec_earley_isla_acyclic.
+
+(* ---- check(tree) = check(str(tree)).
+   FULL STATEMENT: forall unambiguous g, constraint phi, good t:
+     check_str (yield t) = check_tree t.
+   PARTIAL: eqv_guard phi (necessary for the specification semantics, see the refutations) and
+   acyclicb (necessary for the MODEL's eager tree enumeration, C10_parse_complete_unguarded_refuted).
+   The premises sat_respects_eqv and no_oof of C18_check_tree_str_earley are discharged. ---- *)
+Theorem C18_check_tree_str_earley_partial : forall g fxA fxB fuelf,
+  gram_ok g -> guards fxA fxB g -> acyclicb (cgram g Api.START) = true ->
+  forall cst phi eval t,
+  (forall s, fuel_ok fuelf g s) ->
+  eval_definite g eval -> eval_correct g (isla_sat cst phi) eval ->
+  eqv_guard phi = true -> unambiguous g -> good g t ->
+  check_str (earley_first fxA fxB fuelf g) eval (yield t) = check_tree eval t.
+Proof. exact check_tree_str_earley_guarded. Qed.
+Print Assumptions C18_check_tree_str_earley_partial.
+
+(* ... and with the evaluator model as well: no component premise at all *)
+Theorem C18_check_tree_str_earley_isla : forall g fxA fxB fuelf,
+  gram_ok g -> guards fxA fxB g -> acyclicb (cgram g Api.START) = true ->
+  forall cst phi t,
+  fuel_ok fuelf g (yield t) ->
+  eqv_guard phi = true -> unambiguous g -> good g t -> NoDup (ids t) ->
+  isla_guard cst phi t = true -> guard_on g fxA fxB fuelf cst phi (yield t) ->
+  check_str (earley_first fxA fxB fuelf g) (isla_eval cst phi) (yield t) = check_tree (isla_eval cst phi) t.
+Proof. exact check_tree_str_composed. Qed.
+Print Assumptions C18_check_tree_str_earley_isla.
+
+(* non-vacuity: ex_g (<start> ::= <a>; <a> ::= "" | "x") is unambiguous and acyclic; all hypotheses
+   hold for the FUZZER-shaped epsilon tree (its string parses to the PARSER-shaped tree) and for the
+   tree of "x"; verdicts false and true *)
+Example C18_check_tree_str_nonvacuous :
+  gram_ok ex_g /\ guards false false ex_g /\ acyclicb (cgram ex_g Api.START) = true /\ unambiguous ex_g /\
+  eqv_guard cx_phi = true /\
+  (forall t, t = ex_eps_fuzzer \/ t = ex_t ->
+     fuel_ok cx_fuel ex_g (yield t) /\ good ex_g t /\ NoDup (ids t) /\ isla_guard cx_cst cx_phi t = true /\
+     guard_on ex_g false false cx_fuel cx_cst cx_phi (yield t)) /\
+  earley_first false false cx_fuel ex_g Api.START (yield ex_eps_fuzzer) = Some ex_eps_parser /\
+  check_tree (isla_eval cx_cst cx_phi) ex_eps_fuzzer = Ok false /\
+  check_str (earley_first false false cx_fuel ex_g) (isla_eval cx_cst cx_phi) (yield ex_eps_fuzzer) = Ok false /\
+  check_tree (isla_eval cx_cst cx_phi) ex_t = Ok true /\
+  check_str (earley_first false false cx_fuel ex_g) (isla_eval cx_cst cx_phi) (yield ex_t) = Ok true.
+Proof. exact check_tree_str_nonvacuous. Qed.
+Print Assumptions C18_check_tree_str_nonvacuous.
+
+(* ---- (3) the mutator premise: filter by C12's acceptance procedure ---- *)
+Theorem C18_checked_mutant_valid : forall g mutant, mutant_valid g (checked_mutant g mutant).
+Proof. exact checked_mutant_valid. Qed.
+Print Assumptions C18_checked_mutant_valid.
+
+Theorem C18_checked_mutant_id : forall g mutant, good_grammar g -> mutant_is_run g mutant ->
+  forall inp k, good g inp -> checked_mutant g mutant inp k = mutant inp k.
+Proof. exact checked_mutant_id. Qed.
+Print Assumptions C18_checked_mutant_id.
+
+Theorem C18_mutate_str_valid_earley_checked : forall g fxA fxB fuelf,
+  gram_ok g -> guards fxA fxB g ->
+  forall sat eval has_top sem_false abstractions subsolve safe_ok mutant s fuel t,
+  eval_correct g sat eval -> subsolve_sound g sat abstractions subsolve ->
+  mutate_str (earley_first fxA fxB fuelf g) eval has_top sem_false abstractions subsolve safe_ok true
+             (checked_mutant g mutant) s fuel = Some (Ok t) ->
+  good g t /\ sat t.
+Proof. exact mutate_str_valid_earley_checked. Qed.
+Print Assumptions C18_mutate_str_valid_earley_checked.
